@@ -1,5 +1,6 @@
 from __future__ import annotations
 
+import copy
 import importlib
 from itertools import product
 
@@ -60,6 +61,26 @@ def _apply_random(RandomState, funcname, seed, size, args, kwargs):
     return func(*args, size=size, **kwargs)
 
 
+def _derive_block_seeds(rng, n_blocks):
+    """Per-block generators / seeds for ``n_blocks`` blocks; advances ``rng``."""
+    if isinstance(rng, Generator):
+        bitgens = _spawn_bitgens(rng._bit_generator, n_blocks)
+        return bitgens, type(rng._bit_generator), _apply_random_func
+    elif isinstance(rng, RandomState):
+        # Ship a compact per-block seed instead of the full 2.6 KB MT19937
+        # state array. Derive a 128-bit entropy for every block from the
+        # root RNG via one SeedSequence — deterministic from the root, so
+        # recompute is stable and da.random.seed still controls it — and let
+        # the worker rebuild the state (see _apply_random).
+        root_entropy = int.from_bytes(rng._numpy_state.bytes(16), "little")
+        words = (
+            np.random.SeedSequence(root_entropy).generate_state(n_blocks * 4, dtype=np.uint32).reshape(n_blocks, 4)
+        )
+        bitgens = [int.from_bytes(w.tobytes(), "little") for w in words]
+        return bitgens, rng._RandomState, _apply_random
+    raise TypeError("Unknown object type: Not a Generator and Not a RandomState")
+
+
 class Random(IO):
     _parameters = [
         "rng",
@@ -96,30 +117,13 @@ class Random(IO):
     @cached_property
     def _info(self):
         sizes = list(product(*self._base_chunks))
-        if isinstance(self.rng, Generator):
-            bitgens = _spawn_bitgens(self.rng._bit_generator, len(sizes))
-            bitgen_token = tokenize(bitgens)
+        # Derive from a copy: ``rng`` is an operand, and a node re-created from
+        # its operands (by a rewrite of an array-valued parameter, or by
+        # unpickling) must draw the same numbers as the original
+        bitgens, gen, func_applier = _derive_block_seeds(copy.deepcopy(self.rng), len(sizes))
+        bitgen_token = tokenize(bitgens)
+        if func_applier is _apply_random_func:
             bitgens = [_bitgen._seed_seq for _bitgen in bitgens]
-            func_applier = _apply_random_func
-            gen = type(self.rng._bit_generator)
-        elif isinstance(self.rng, RandomState):
-            # Ship a compact per-block seed instead of the full 2.6 KB MT19937
-            # state array. Derive a 128-bit entropy for every block from the
-            # root RNG via one SeedSequence — deterministic from the root, so
-            # recompute is stable and da.random.seed still controls it — and let
-            # the worker rebuild the state (see _apply_random).
-            root_entropy = int.from_bytes(self.rng._numpy_state.bytes(16), "little")
-            words = (
-                np.random.SeedSequence(root_entropy)
-                .generate_state(len(sizes) * 4, dtype=np.uint32)
-                .reshape(len(sizes), 4)
-            )
-            bitgens = [int.from_bytes(w.tobytes(), "little") for w in words]
-            bitgen_token = tokenize(bitgens)
-            func_applier = _apply_random
-            gen = self.rng._RandomState
-        else:
-            raise TypeError("Unknown object type: Not a Generator and Not a RandomState")
         token = tokenize(bitgen_token, self.size, self.chunks, self.args, self.kwargs)
         name = f"{self.distribution}-{token}"
 
